@@ -110,11 +110,20 @@ structure DataV where
 def rangeVals (n : Nat) : List PyVal := (List.range n).map (fun (i : Nat) => PyVal.int (Int.ofNat i))
 
 /-- `Data(data)` -/
-def DataV.ofPy : PyVal → Except Exc DataV
-  | .list xs => if xs.isEmpty then .error .typeError else .ok ⟨true, rangeVals xs.length, xs⟩
-  | .dict kvs => if kvs.isEmpty then .error .typeError
+def emptyData (isList : Bool) : Except Exc DataV :=
+  match dataGuardEmptyExc with
+  | some e => .error e
+  | none => .ok ⟨isList, [], []⟩
+
+/-- the guard of `Data.__init__` is generated from the source (`dataGuardTypes`, `dataGuardTypeExc`,
+    `dataGuardEmptyExc`) -/
+def DataV.ofPy (v : PyVal) : Except Exc DataV :=
+  if !(dataGuardTypes.any (PyVal.instOf v)) then .error dataGuardTypeExc else
+  match v with
+  | .list xs => if xs.isEmpty then emptyData true else .ok ⟨true, rangeVals xs.length, xs⟩
+  | .dict kvs => if kvs.isEmpty then emptyData false
                  else .ok ⟨false, kvs.map (·.1), kvs.map (·.2)⟩
-  | _ => .error .typeError
+  | _ => .error .unmodelled
 
 /-- `Data.original` / `get_original()` -/
 def DataV.original (d : DataV) : PyVal :=
